@@ -334,6 +334,30 @@ def rule_columns(repo, tier='quick', rule_id='C05.R12', only=None):
                     rr.fail('column:numeric:scaled', fi_e.where, 'the column %r (4 bits, scale 1, reference -5) written %s as %s reads back as %s' % (
                         column, 'compressed' if compressed else 'uncompressed', fields, got if got is not None else derr), witness={'column': [repr(v) for v in column]})
         rr.instance('numeric, scale 1 / reference -5: 8 columns')
+        # values off the grid: what counts is the scaled integer.  Entries that scale to the same integer agree (width 0), and encoding
+        # what the decoder made of the first encoding gives the same fields again (canonical fixpoint of C03)
+        for column in ([0.31, 0.29], [0.3, 0.34, 0.26], [0.04, -0.04], [0.31, 0.29, None], [0.31, 0.52], [0.5, 0.5]):
+            n += 1
+            fields, err, refused = encode_column(repo, 'numeric', list(column), 4, True, scale_powered=10, refval=-5)
+            if fields is None:
+                rr.fail('column:numeric:scaled:encode', fi_e.where, 'the column %r (4 bits, scale 1, reference -5) is refused (%s)' % (column, err))
+                continue
+            raws = [None if v is None else int(round(v * 10)) + 5 for v in column]
+            agree = all(r == raws[0] for r in raws)
+            if len(fields) >= 2 and fields[1][:2] == ('uint', 6) and (fields[1][2] == 0) != agree:
+                rr.fail('column:numeric:compressed:width0:scaled', fi_e.where, 'the column %r (scale 1, reference -5: raw fields %s) is written with difference width %d; width 0 is '
+                        'used exactly when the raw fields of all subsets agree - the user values may differ below the precision of the element' % (
+                            column, raws, fields[1][2]), witness={'column': [repr(v) for v in column]})
+            got, derr = decode_fields(repo, 'numeric', fields, len(column), 4, True, scale_powered=10, refval=-5)
+            if got is None:
+                rr.fail('column:numeric:scaled', fi_e.where, 'the column %r written compressed as %s: the decoder %s' % (column, fields, derr))
+                continue
+            fields2, err2, _ = encode_column(repo, 'numeric', list(got), 4, True, scale_powered=10, refval=-5)
+            if fields2 != fields:
+                rr.fail('column:numeric:compressed:fixpoint', fi_e.where, 'the column %r is written as %s; decoding gives %r, and encoding that again gives %s: the first '
+                        'encoding is not the canonical one, so a second decode / encode round trip changes the bytes' % (column, fields, got, fields2 if fields2 is not None else err2),
+                        witness={'column': [repr(v) for v in column]})
+        rr.instance('numeric, off-grid values: 6 columns (width 0 on raw agreement, encode / decode / encode fixpoint)')
     # the decoder reads every legal difference width, not only the minimal one
     if not only or 'numeric' in only or 'codeflag' in only:
         for kind in ('numeric', 'codeflag'):
